@@ -58,7 +58,10 @@ pub mod util {
     pub(crate) fn eprint_err<E: VErr>(error_code: ErrorCode, msg: &str, err: &E)
         requires
             reportable(error_code), //@label eprint_err.perm.reportable C19
+        ensures reported(error_code),
     { unimplemented!() }
+    /// token fact (C19, "if" direction): a problem was handed to the error channel with this code - only eprint_err establishes it
+    pub uninterp spec fn reported(code: ErrorCode) -> bool;
 }
 pub mod state {
     use super::*;
@@ -72,16 +75,21 @@ pub mod state {
     pub uninterp spec fn wb_ok(buf: Seq<u8>) -> bool;
     pub uninterp spec fn flush_ok() -> bool;
     pub uninterp spec fn shutdown_ok() -> bool;
+    /// oracles: the outcomes of State::write_buffer / State::flush in this call
+    pub uninterp spec fn wb_result(buf: Seq<u8>) -> std::io::Result<()>;
+    pub uninterp spec fn flush_result() -> std::io::Result<()>;
     impl State {
         #[verifier::external_body]
         pub fn write_buffer(&mut self, buf: &[u8]) -> (r: std::io::Result<()>)
             requires
                 wb_ok(buf@), //@label State::write_buffer.perm C15
+            ensures r == wb_result(buf@),
         { unimplemented!() }
         #[verifier::external_body]
         pub fn flush(&mut self) -> (r: std::io::Result<()>)
             requires
                 flush_ok(), //@label State::flush.perm C15
+            ensures r == flush_result(),
         { unimplemented!() }
         #[verifier::external_body]
         pub fn shutdown(&mut self)
@@ -108,6 +116,9 @@ pub mod state {
             forall|c: ErrorCode| #[trigger] super::util::reportable(c) <==> (c is Flush || c is Write),
         ensures
             stopped == is_shutdown(message@), //@label async_dispatch.post.stop C04,C15
+            // C19: in the writer thread nobody can be handed an error: a failing flush / write is reported
+            is_flush(message@) && flush_result() is Err ==> super::util::reported(ErrorCode::Flush), //@label async_dispatch.post.flush_failure_reported C19
+            !is_flush(message@) && !is_shutdown(message@) && wb_result(message@) is Err ==> super::util::reported(ErrorCode::Write), //@label async_dispatch.post.write_failure_reported C19
     {
         let ghost m0 = message@;
         // (wrapper, not copied code) the two control messages differ
@@ -120,6 +131,12 @@ pub mod state {
     //@   block Ok(mut message) =>
     //@   rename async_dispatch
     //@   rule R23 *
+    //@   closure ~eprint_err(ErrorCode::Flush ## sig |e: std::io::Error| -> (u: ())
+    //@   closure ~eprint_err(ErrorCode::Flush ## req super::util::reportable(ErrorCode::Flush)
+    //@   closure ~eprint_err(ErrorCode::Flush ## ens super::util::reported(ErrorCode::Flush)
+    //@   closure ~eprint_err(ErrorCode::Write ## sig |e: std::io::Error| -> (u: ())
+    //@   closure ~eprint_err(ErrorCode::Write ## req super::util::reportable(ErrorCode::Write)
+    //@   closure ~eprint_err(ErrorCode::Write ## ens super::util::reported(ErrorCode::Write)
             return false;
         }
         true
